@@ -78,7 +78,10 @@ def _paths(doc, path=()):
 def _check_document(doc):
     import celpy
     from celpy.adapter import json_to_cel, CELJSONEncoder
-    cel = json_to_cel(doc)
+    try:
+        cel = json_to_cel(doc)
+    except Exception as ex:  # noqa: BLE001 - a JSON document (integers within int64) that cannot be converted is the finding
+        return False, f"json_to_cel({doc!r:.120}) raised {type(ex).__name__}: {ex}"
     r = _check_types(doc, cel, "doc")
     if r:
         return False, f"json_to_cel: {r}"
@@ -88,8 +91,6 @@ def _check_document(doc):
     if not _same(again, doc):
         return False, f"json.dumps(json_to_cel(d), cls=CELJSONEncoder) = {text[:120]} does not load back to the original {doc!r:.120}"
     for path, leaf in _paths(doc):
-        if not path:
-            continue
         variants = [""]
         for p in path:
             if isinstance(p, int):
@@ -99,13 +100,16 @@ def _check_document(doc):
                 if p.isidentifier() and p not in ("true", "false", "null", "in"):
                     new += [v + f".{p}" for v in variants]
                 variants = new[:4]
-        for v in variants:
+        srcs = ["doc" + v for v in variants]
+        if not path:
+            srcs += ["[doc][0]", "{'k': doc}.k", "{'k': doc}['k']", "[doc, doc].map(x, x)[1]"]
+        for src_ in srcs:
             for runner in ("interp", "compiled"):
-                prog = make_program("doc" + v, runner)
+                prog = make_program(src_, runner)
                 kd, got = evaluate_outcome(lambda: prog.evaluate({"doc": cel}))
                 if kd != "value":
-                    return False, f"`doc{v}` under {runner}: {kd} {got!r:.100}"
-                r = _check_types(leaf, got, f"doc{v}")
+                    return False, f"`{src_}` under {runner}: {kd} {got!r:.100}"
+                r = _check_types(leaf, got, src_)
                 if r:
                     return False, f"navigation under {runner}: {r}"
     return True, "ok"
